@@ -60,7 +60,10 @@ try:
                     passed.add(name)
         except Exception as e:
             res['tests_error'] = repr(e)
-        res['stable_lost'] = sorted(stable - passed)
+        lost = sorted(stable - passed)
+        res['stable_lost_count'] = len(lost)
+        res['stable_lost'] = lost[:8]
+        res['pytest_tail'] = out[-500:] if lost else ''
         res['tests_passed'] = len(passed)
     # checks
     fired = {}
